@@ -13,6 +13,7 @@ import (
 func init() {
 	vfRegister("VfC11_lockset", VfC11_lockset)
 	vfRegister("VfC11_concurrentElections", VfC11_concurrentElections)
+	vfRegister("VfC05_concurrent", VfC05_concurrent)
 }
 
 func vfTrackHeap()       {}
@@ -43,6 +44,10 @@ func VfC11_lockset() {
 		if in.flushElec == 2 {
 			in.fHi, in.fLo = vfU64("f.hi"), vfU64("f.lo")
 		}
+	}
+	if role >= 5 {
+		// Get / Flush walk the instance map: every iteration order is a path (lock acquisition order)
+		vfMapOrder(true)
 	}
 	vfC11Role(s, role, c, in)
 	vfRole("")
@@ -135,7 +140,16 @@ func vfC11Seed(s *Server) {
 // primary a session that announced it - for every schedule within the context
 // bound.  Natively (replay) the round is repeated many times behind a barrier,
 // because the Go scheduler rarely produces the interleaving on the first try.
-func VfC11_concurrentElections() {
+func VfC11_concurrentElections() { vfConcurrentElections("C11:quiescent-election-state-is-the-maximum-announced-and-its-announcer", "") }
+
+// VfC05_concurrent: the same two concurrent announcements judged by C05's statement: the quiescent primary /
+// current id are the maximum and its announcer, and every response carries an id that is at least the
+// announced one and at most the maximum (the running maximum at some moment of the interleaving).
+func VfC05_concurrent() {
+	vfConcurrentElections("C05:concurrent-announcements-leave-the-maximum-and-its-announcer", "C05:response-carries-a-running-maximum")
+}
+
+func vfConcurrentElections(label, respLabel string) {
 	aH, aL := vfU64("a.hi"), vfU64("a.lo")
 	bH, bL := vfU64("b.hi"), vfU64("b.lo")
 	vfAssume(vfOr(aH != 0, aL != 0))
@@ -150,18 +164,19 @@ func VfC11_concurrentElections() {
 			s.cs[c] = &clientState{params: &clientParams{ExpectElecID: true, Persist: true}, setParams: true}
 		}
 		var wg sync.WaitGroup
+		var ra, rb *spb.ModifyResponse
 		start := make(chan struct{})
 		wg.Add(2)
 		vfSched(2)
 		go func() {
 			defer wg.Done()
 			<-start
-			s.runElection("A", &spb.Uint128{High: aH, Low: aL})
+			ra, _ = s.runElection("A", &spb.Uint128{High: aH, Low: aL})
 		}()
 		go func() {
 			defer wg.Done()
 			<-start
-			s.runElection("B", &spb.Uint128{High: bH, Low: bL})
+			rb, _ = s.runElection("B", &spb.Uint128{High: bH, Low: bL})
 		}()
 		close(start)
 		wg.Wait()
@@ -173,7 +188,17 @@ func VfC11_concurrentElections() {
 			ok = vfAnd(eq128(s.curElecID.High, s.curElecID.Low, maxH, maxL),
 				vfOr(vfAnd(s.curMaster == "A", aWins), vfAnd(s.curMaster == "B", bWins)))
 		}
-		vfAssert(ok, "C11:quiescent-election-state-is-the-maximum-announced-and-its-announcer")
+		vfAssert(ok, label)
+		if respLabel != "" {
+			okr := ra != nil && rb != nil && ra.GetElectionId() != nil && rb.GetElectionId() != nil
+			if okr {
+				ea, eb := ra.GetElectionId(), rb.GetElectionId()
+				okr = vfAnd(vfAnd(ge128(ea.High, ea.Low, aH, aL), ge128(maxH, maxL, ea.High, ea.Low)),
+					vfAnd(ge128(eb.High, eb.Low, bH, bL), ge128(maxH, maxL, eb.High, eb.Low)))
+			}
+			vfAssert(okr, respLabel)
+			ok = ok && okr
+		}
 		if !ok && !vfEngine() {
 			break
 		}
